@@ -159,6 +159,10 @@ def run_check(tier, seed):
             ('logic_base', [['load', 'logic_base', None]], [['append_item', 'logic_base', ax(0)]], 'changed file re-read'),
             ('logic', [['load', 'logic', None]], [['append_item', 'logic_base', ax(1)]], 'direct import changed between two loads'),
             ('logic_base', [['load', 'logic_base', None]], [['append_item', 'logic_base', ax(8), 'older']], 'file replaced by a different, older-dated version'),
+            ('logic_base', [['append_item', 'logic_base', ax(10)], ['load', 'logic_base', None]],
+             [['replace_item', 'logic_base', 'verif_c12_new_axiom_10', dict(ax(10), prop='A --> A --> A')]], 'statement of a looked-up theorem changed between two loads'),
+            ('nat', [['append_item', 'logic', ax(11)], ['load', 'nat', None]],
+             [['replace_item', 'logic', 'verif_c12_new_axiom_11', dict(ax(11), prop='A --> A --> A')]], "statement of an import's looked-up theorem changed between two loads"),
             ('nat', [['load', 'nat', None]], [['append_item', 'logic_base', ax(2)]], 'transitive import changed between two loads'),
             ('set', [['load', 'set', None]], [['append_item', 'nat', ax(3)]], 'import in the middle of the chain changed'),
             ('nat', [['load', 'function', None]], [['append_item', 'logic', ax(4)]], 'import changed after it was cached through another theory'),
@@ -181,7 +185,7 @@ def run_check(tier, seed):
             ('nat', [['load', 'nat', None]], [['append_item', 'logic', ax(9), 'older']], 'import replaced by a different, older-dated version'),
         ]
         if tier == 'quick':
-            mut_specs = mut_specs[:3] + [m_ for m_ in mut_specs[3:] if 'imports of an import' in m_[3]][:2] + r.sample([m_ for m_ in mut_specs[3:] if 'imports of an import' not in m_[3]], 2)
+            mut_specs = mut_specs[:5] + [m_ for m_ in mut_specs[5:] if 'imports of an import' in m_[3]][:2] + r.sample([m_ for m_ in mut_specs[5:] if 'imports of an import' not in m_[3]], 2)
         mut_dirs, mut_jobs = [], []
         for target, pre, change, descr in mut_specs:
             pair = []
@@ -193,7 +197,7 @@ def run_check(tier, seed):
                 for n in CHAIN:
                     shutil.copy(os.path.join(REPO, 'library', n + '.json'), os.path.join(d, 'library', n + '.json'))
                 pair.append(['scratch', d])
-            file_ops = [op for op in change if op[0] != 'load']
+            file_ops = [op for op in pre + change if op[0] != 'load']
             mut_jobs.append((target, descr, [pair[0]] + pre + change + [['load', target, None]], [pair[1]] + file_ops + [['load', target, None]]))
         all_jobs = jobs + fs_jobs
         with ThreadPoolExecutor(max_workers=NCPU) as ex:
